@@ -4,9 +4,12 @@ The arithmetic of the ABCI state pruner (`go/consensus/cometbft/abci/prune.go:11
 
 Inputs of one call: `latest` (latest version), the pruner's `keepN`, its remembered
 `earliest` / `lastRetained`, the database's `GetEarliestVersion()` (`dbEarliest`), the prune
-handlers' verdict per version (`veto v = true`: some handler refuses) and the database's answer
-to `Prune(v)` per version (`db v`).  Output: the versions for which `ndb.Prune` returned `nil`,
-the new `earliest` / `lastRetained`, and whether the call returned an error.
+handlers' verdict per version (`veto v = true`: some handler refuses), the database's answer
+to `Prune(v)` per version (`db v`) and whether `ndb.Sync()` succeeds (`syncOk`).  Output: the
+versions for which `ndb.Prune` returned `nil`, the new `earliest` / `lastRetained`, whether the
+call returned an error, and — if `Sync` was reached — the retained version a concurrent
+`GetLastRetainedVersion` sees while `Sync` runs: the code syncs BEFORE it advances the retained
+version ("otherwise things can be pruned and in case of a crash replay will not be possible").
 Core Lean only.
 -/
 namespace OasisModel.NodeDB.Pruner
@@ -27,6 +30,8 @@ structure Out where
   pruned : List Nat    -- versions the database accepted to prune, in order
   asked : List Nat     -- versions passed to ndb.Prune, in order
   err : Bool
+  /-- `some r`: `ndb.Sync()` was called while `lastRetainedVersion` was `r` -/
+  retainedAtSync : Option Nat := none
 deriving Repr
 
 /-- The `for i := p.earliest; i <= latestVersion; i++` loop, `n` iterations left. Returns the
@@ -42,7 +47,8 @@ def loop (preserveFrom : Nat) (veto : Nat → Bool) (db : Nat → DbRes) :
       | .notEarliest => loop preserveFrom veto db n (i + 1) e pr (ak ++ [i])
       | .fail => (e, pr, ak ++ [i], true)
 
-def prune (keepN latest dbEarliest : Nat) (veto : Nat → Bool) (db : Nat → DbRes) (p : PSt) : Out :=
+def prune (keepN latest dbEarliest : Nat) (veto : Nat → Bool) (db : Nat → DbRes) (p : PSt)
+    (syncOk : Bool := true) : Out :=
   if latest < keepN then { st := p, pruned := [], asked := [], err := false }
   else
     let p1 : PSt := if p.earliest = 0 then { earliest := dbEarliest, lastRetained := dbEarliest } else p
@@ -50,6 +56,11 @@ def prune (keepN latest dbEarliest : Nat) (veto : Nat → Bool) (db : Nat → Db
     else
       let r := loop (latest - keepN) veto db (latest + 1 - p1.earliest) p1.earliest p1.earliest [] []
       if r.2.2.2 then { st := p1, pruned := r.2.1, asked := r.2.2.1, err := true }
-      else { st := { earliest := r.1, lastRetained := r.1 }, pruned := r.2.1, asked := r.2.2.1, err := false }
+      else if !syncOk then
+        -- Sync failed: the error is returned, the retained version has not moved
+        { st := { earliest := r.1, lastRetained := p1.lastRetained }, pruned := r.2.1, asked := r.2.2.1,
+          err := true, retainedAtSync := some p1.lastRetained }
+      else { st := { earliest := r.1, lastRetained := r.1 }, pruned := r.2.1, asked := r.2.2.1, err := false,
+             retainedAtSync := some p1.lastRetained }
 
 end OasisModel.NodeDB.Pruner
